@@ -297,7 +297,7 @@ CELLS = [
 ]
 CELLS += [c for c in _c03.CELLS if c.name.startswith('K2.') and ('body=2' in c.name or 'body=1' in c.name or 'body=0' in c.name)]
 _Q = {('list4c', 'unparsable'), ('ifbody3', 'unparsable'), ('callargs', 'wrongcat'), ('list4c', 'unknown_option'), ('ifbody3', 'bad_trivia'),
-      ('dict3', 'unparsable2'), ('list4c', 'consumed_fst'), ('tuple3', 'nonroot_fst')}
+      ('dict3', 'unparsable2'), ('list4c', 'consumed_fst'), ('tuple3', 'nonroot_fst'), ('callgen', 'unparsable'), ('callgen', 'wrongcat')}
 for _c in pc.CARRIERS:
     for _k in BAD:
         CELLS.append(Cell(f'P1.{_c.id}.{_k}', _mk_fail(_c.id, _k), 'P', pc.FN_EDIT + FN12,
